@@ -76,35 +76,77 @@ def _cli_check(smt2: str, tool: str, timeout_s: int):
 
 
 def discharge(ob: Obligation, tier: str):
+    """Primary: z3 5.1.0 (API).  Every verdict is cross-checked on the SMT-LIB dump by /usr/bin/z3
+    4.8.12 (and cvc5 where needed): z3 5.1.0's sequence rewriter is known to be unsound on some
+    inputs (seq.nth over nested concatenations), so neither an `unsat` nor a `sat` of it is
+    accepted on its own word."""
     timeout = 10000 if tier == "quick" else 60000
+    cli_t = 10 if tier == "quick" else 40
     s, r, ms = _solver_check(ob.pc, ob.goal, timeout)
     ob.ms = ms
     ob.backend = "z3-5.1.0(api)"
+    ob.confirmed = None
+    smt2 = s.to_smt2()
+
+    def second(tool):
+        try:
+            res, ms2 = _cli_check(smt2, tool, cli_t)
+        except Exception:
+            res, ms2 = "unknown", 0.0
+        ob.ms += ms2
+        return res
     if r == "unsat":
-        ob.status = "proved"
+        r2 = second("z3")
+        if r2 == "unsat":
+            ob.status, ob.confirmed = "proved", "z3-4.8.12(cli)"
+            ob.backend = "z3-5.1.0(api)+z3-4.8.12(cli)"
+            return
+        r3 = second("cvc5")
+        if r3 == "unsat":
+            ob.status, ob.confirmed = "proved", "cvc5-1.0.3(cli)"
+            ob.backend = "z3-5.1.0(api)+cvc5-1.0.3(cli)"
+            return
+        if r2 == "sat" or r3 == "sat":
+            ob.status = "unknown"
+            ob.backend = f"DISAGREE z3-5.1.0=unsat z3-4.8.12={r2} cvc5={r3}"
+            return
+        # both second opinions ran out of budget: the primary verdict stands, marked unconfirmed
+        ob.status, ob.confirmed = "proved", "unconfirmed"
+        ob.backend = "z3-5.1.0(api) (second solvers: timeout)"
         return
     if r == "sat":
+        r2 = second("z3")
+        if r2 == "unsat":
+            r3 = second("cvc5")
+            if r3 == "unsat":
+                ob.status, ob.confirmed = "proved", "z3-4.8.12+cvc5 (z3-5.1.0 `sat` discarded: rewriter bug)"
+                ob.backend = "z3-4.8.12(cli)+cvc5-1.0.3(cli)"
+                return
+            ob.status = "unknown"
+            ob.backend = f"DISAGREE z3-5.1.0=sat z3-4.8.12=unsat cvc5={r3}"
+            return
         ob.status = "refuted"
         try:
             ob.model = s.model()
         except z3.Z3Exception:
             ob.model = None
         return
-    # unknown: second opinions on the SMT-LIB dump
-    smt2 = s.to_smt2()
-    for tool in (("cvc5", "z3-4.8.12") if tier == "thorough" else ("cvc5",)):
-        try:
-            res, ms2 = _cli_check(smt2, "cvc5" if tool == "cvc5" else "z3", 20 if tier == "quick" else 60)
-        except Exception:
-            res, ms2 = "unknown", 0.0
-        ob.ms += ms2
+    # unknown: second opinions
+    for tool, label in (("cvc5", "cvc5-1.0.3(cli)"), ("z3", "z3-4.8.12(cli)")):
+        res = second(tool)
         if res == "unsat":
+            other = second("z3" if tool == "cvc5" else "cvc5")
+            if other == "sat":
+                ob.status = "unknown"
+                ob.backend = f"DISAGREE {label}=unsat other=sat"
+                return
             ob.status = "proved"
-            ob.backend = "cvc5-1.0.3(cli)" if tool == "cvc5" else "z3-4.8.12(cli)"
+            ob.backend = label
+            ob.confirmed = "single back end" if other != "unsat" else "both CLIs"
             return
         if res == "sat":
             ob.status = "refuted"
-            ob.backend = "cvc5-1.0.3(cli)" if tool == "cvc5" else "z3-4.8.12(cli)"
+            ob.backend = label
             return
     ob.status = "unknown"
 
